@@ -8,6 +8,23 @@ import json
 import sys
 
 
+def _records(df):
+    """A frame as order-free records without the columns that hold symbol ids (they legitimately vary with the seed)."""
+    if df is None:
+        return None
+    df = df.reset_index()
+    df.columns = [str(c) for c in df.columns]
+    keep = [c for c in df.columns if c not in ("name", "cat", "user_annotation", "index", "level_0")]
+    return sorted(map(str, df[keep].round(6).to_dict("records")))
+
+
+def _anno(ta, r):
+    df = ta.get_gpu_kernels_with_user_annotations(r)
+    if df is None:
+        return None
+    return sorted(map(str, df[["ts", "dur", "stream", "s_name", "s_user_annotation"]].to_dict("records")))
+
+
 def battery(case, mp: bool):
     from harness import htaio
     from harness.props import common as C
@@ -29,7 +46,13 @@ def battery(case, mp: bool):
                  ("launch", lambda: {r: sorted(map(str, df.to_dict("records"))) for r, df in ta.get_cuda_kernel_launch_stats(ranks=ranks, visualize=False).items()}),
                  ("queue", lambda: {r: df.reset_index().to_dict("records") for r, df in ta.get_queue_length_time_series(ranks).items()}),
                  ("membw", lambda: {r: sorted(map(str, df.to_dict("records"))) for r, df in ta.get_memory_bw_time_series(ranks).items()}),
-                 ("iterations", lambda: {r: ta.t.get_iterations(r) for r in ranks})]
+                 ("iterations", lambda: {r: ta.t.get_iterations(r) for r in ranks}),
+                 ("profiler_steps", lambda: list(ta.get_profiler_steps())),
+                 ("anno_kernels", lambda: {r: _anno(ta, r) for r in ranks}),
+                 ("anno_bd", lambda: _records(ta.get_gpu_user_annotation_breakdown(visualize=False))),
+                 ("queue_summary", lambda: _records(ta.get_queue_length_summary(ranks=ranks))),
+                 ("membw_summary", lambda: _records(ta.get_memory_bw_summary(ranks=ranks))),
+                 ("blocked", lambda: _records(ta.get_time_spent_blocked_on_full_queue(ta.get_queue_length_time_series(ranks), max_queue_length=2)))]
         for name, f in steps:
             try:
                 out[name] = dig(f())
